@@ -279,6 +279,7 @@ func putProtoLabelIndices(ctx *datastore.VersionedCtx, dataIn []byte) (numAdded,
 			if err = deleteLabelIndex(ctx, protoIdx.Label); err != nil {
 				return
 			}
+			uncacheLabelIndex(data, ctx.VersionID(), protoIdx.Label)
 			numDeleted++
 			continue
 		}
@@ -287,6 +288,7 @@ func putProtoLabelIndices(ctx *datastore.VersionedCtx, dataIn []byte) (numAdded,
 		if err = putLabelIndex(store, ctx, data, &idx); err != nil {
 			return
 		}
+		uncacheLabelIndex(data, ctx.VersionID(), idx.Label)
 		if idx.Label > maxLabel {
 			maxLabel = idx.Label
 		}
@@ -428,6 +430,13 @@ func putCachedLabelIndex(d dvid.Data, v dvid.VersionID, idx *labels.Index) error
 		}
 	}
 	return nil
+}
+
+// drops any cached index for the label so the next read goes to the store.
+func uncacheLabelIndex(d dvid.Data, v dvid.VersionID, label uint64) {
+	if indexCache != nil {
+		indexCache.Del(indexKey{data: d, version: v, label: label}.Bytes())
+	}
 }
 
 func deleteCachedLabelIndex(d dvid.Data, v dvid.VersionID, label uint64) error {
